@@ -1021,16 +1021,18 @@ def shape_ann(rank):
     return "[" + ", ".join(["None"] * rank) + "]"
 
 
-def r_block(stmts, ind, lines, marks):
+def r_block(stmts, ind, lines, marks, loop=None):
     pad = "    " * ind
     if not stmts:
         lines.append(pad + "pass")
         return
+    index = marks.setdefault("#index", [])
     for s in stmts:
         t = s[0]
         if len(s) > 1 and isinstance(s[-1], dict) and s[-1].get("mark"):
             marks[s[-1]["mark"]] = len(lines) + 1
             s = s[:-1]
+        index.append({"line": len(lines) + 1, "indent": ind, "type": t, "loop": loop})
         if t == "assign":
             lines.append(f"{pad}{s[1]} = {r_expr(s[2])}")
         elif t == "massign":
@@ -1039,10 +1041,10 @@ def r_block(stmts, ind, lines, marks):
             lines.append(f"{pad}{', '.join(s[1])} = {', '.join(r_expr(x) for x in s[2])}")
         elif t == "if":
             lines.append(f"{pad}if {r_expr(s[1])}:")
-            r_block(s[2], ind + 1, lines, marks)
+            r_block(s[2], ind + 1, lines, marks, loop)
             if s[3]:
                 lines.append(f"{pad}else:")
-                r_block(s[3], ind + 1, lines, marks)
+                r_block(s[3], ind + 1, lines, marks, loop)
         elif t == "for":
             lines.append(f"{pad}for {s[1]} in range({r_expr(s[2])}):")
             body = list(s[3])
@@ -1050,14 +1052,14 @@ def r_block(stmts, ind, lines, marks):
                 lines.append(pad + "    pass")
             else:
                 if body:
-                    r_block(body, ind + 1, lines, marks)
+                    r_block(body, ind + 1, lines, marks, ("for", s[1]))
                 if s[4] is not None:
                     lines.append(f"{pad}    if {s[4]}:")
                     lines.append(f"{pad}        break")
         elif t == "while":
             lines.append(f"{pad}while {s[1]}:")
             if s[2]:
-                r_block(s[2], ind + 1, lines, marks)
+                r_block(s[2], ind + 1, lines, marks, ("while", s[1]))
             if s[3] is not None:
                 lines.append(f"{pad}    if {s[3]}:")
                 lines.append(f"{pad}        break")
@@ -1071,7 +1073,7 @@ def r_block(stmts, ind, lines, marks):
         elif t == "def":
             _, name, params, body, rets = s
             lines.append(f"{pad}def {name}({', '.join(params)}):")
-            r_block(body, ind + 1, lines, marks)
+            r_block(body, ind + 1, lines, {})
             lines.append(f"{pad}    return {', '.join(r_expr(x) for x in rets)}")
         else:
             raise ValueError(f"cannot render statement {t}")
